@@ -465,6 +465,27 @@ func DeclAtoms() []Atom {
 				{Name: "get", Ret: T("i32"), Throws: []*Field{{ID: 1, Name: "a", Req: "default", Type: T("LocalAlias")}, {ID: 2, Name: "b", Req: "default", Type: T("errs.Failure")}}}}}}}}
 		out = append(out, Atom{Name: "service/throws-typedef-of-exception", Class: "parse-only", Prog: &Program{Files: []*File{f, errs}}})
 	}
+	// two included files each of which includes a file called common.frugal from its own directory:
+	// different files, different declarations, one base name
+	{
+		ns := func(v string) []*Decl { return []*Decl{{NS: &NS{Scope: "go", Value: v}}, {NS: &NS{Scope: "java", Value: v}}} }
+		fc := &File{Name: "fruit/common.frugal", Decls: append(ns("fruitcommon"), &Decl{Struct: &Struct{Kind: "struct", Name: "Apple", Fields: []*Field{{ID: 1, Name: "n", Req: "default", Type: T("i32")}}}})}
+		tc := &File{Name: "tools/common.frugal", Decls: append(ns("toolscommon"),
+			&Decl{Enum: &Enum{Name: "Size", Values: []*EnumValue{{Name: "S"}, {Name: "L"}}}},
+			&Decl{Struct: &Struct{Kind: "struct", Name: "Hammer", Fields: []*Field{{ID: 1, Name: "w", Req: "default", Type: T("i32")}}}})}
+		fb := &File{Name: "fruit/basket.frugal", Decls: append(ns("basket"), &Decl{Include: "common.frugal"},
+			&Decl{Struct: &Struct{Kind: "struct", Name: "Basket", Fields: []*Field{{ID: 1, Name: "a", Req: "default", Type: T("common.Apple")}}}})}
+		tb := &File{Name: "tools/box.frugal", Decls: append(ns("box"), &Decl{Include: "common.frugal"},
+			&Decl{Struct: &Struct{Kind: "struct", Name: "Box", Fields: []*Field{{ID: 1, Name: "h", Req: "default", Type: T("common.Hammer")}, {ID: 2, Name: "s", Req: "default", Type: T("common.Size")}}}})}
+		for _, o := range []struct {
+			n    string
+			a, b string
+		}{{"fruit-first", "fruit/basket.frugal", "tools/box.frugal"}, {"tools-first", "tools/box.frugal", "fruit/basket.frugal"}} {
+			m := &File{Name: "main.frugal", Decls: append(ns("mainpkg"), &Decl{Include: o.a}, &Decl{Include: o.b},
+				&Decl{Struct: &Struct{Kind: "struct", Name: "Holder", Fields: []*Field{{ID: 1, Name: "b", Req: "default", Type: T("basket.Basket")}, {ID: 2, Name: "x", Req: "default", Type: T("box.Box")}}}})}
+			out = append(out, Atom{Name: "include-path/same-base-name-in-two-directories/" + o.n, Class: "parse-only", Prog: &Program{Files: []*File{m, fb, fc, tb, tc}}})
+		}
+	}
 	// a struct literal constant that sets an optional scalar field which has a default
 	add("const/struct-literal-sets-optional-field-with-default", "const", false, []*Decl{
 		{Struct: &Struct{Kind: "struct", Name: "Retry", Fields: []*Field{{ID: 1, Name: "attempts", Req: "optional", Type: T("i32"), Default: Int(3)}, {ID: 2, Name: "label", Req: "optional", Type: T("string"), Default: Str("x")}, {ID: 3, Name: "n", Req: "default", Type: T("i32")}}}}},
